@@ -888,7 +888,7 @@ func scenarios(thorough bool) []*dialerh.Scenario {
 	}
 	{
 		// escalation through UDP thresholds and traffic failures, one node, all its domains fall together
-		c := &cfg{name: "esc/mixed", addrs: []string{"addr-x"}, groups: oneNode, depth: pick(4, 6)}
+		c := &cfg{name: "esc/mixed", addrs: []string{"addr-x"}, groups: oneNode, depth: pick(4, 7)}
 		c.addNodeEvents(0, TCP4, map[evKind][]int{evPOK: nil, evPFail: nil, evTFail: {10}})
 		c.addNodeEvents(0, DNS4, map[evKind][]int{evPFail: {3}, evFFail: nil})
 		c.addNodeEvents(0, DAT4, map[evKind][]int{evTFail: {50}, evTOK: nil})
@@ -900,7 +900,7 @@ func scenarios(thorough bool) []*dialerh.Scenario {
 		name string
 		gs   []groupSpec
 	}{{"share-ab-a", twoA}, {"share-a-ab", twoB}} {
-		c := &cfg{name: sh.name + "/tcp4+dat4", addrs: []string{"addr-x", "addr-y"}, groups: sh.gs, depth: pick(4, 5)}
+		c := &cfg{name: sh.name + "/tcp4+dat4", addrs: []string{"addr-x", "addr-y"}, groups: sh.gs, depth: pick(4, 6)}
 		for n := 0; n < 2; n++ {
 			c.addNodeEvents(n, TCP4, map[evKind][]int{evPOK: nil, evPFail: nil})
 			c.addNodeEvents(n, DAT4, map[evKind][]int{evFFail: nil, evTOK: nil})
